@@ -17,6 +17,11 @@ CONSTANTS
   MaxOps = 4
   GraphOps = TRUE
   Probe = "none"
+  CarPerPage = 100
+  Reentrant = FALSE
+  FlagFirst = FALSE
+  SplitPoint = FALSE
+  CutAtRisk = FALSE
 INVARIANTS AuditInv AbsInv ClientOk
 PROPERTY Refines
 VIEW View
